@@ -212,6 +212,10 @@ def prod_config(e, tier="quick", ops=None, acting=None, others=None):
     """C18: identical frames (except the `nameplates` answer) and identical channel store under
     (listing allowed, no usage store, no blur) vs. every other configuration"""
     bd = bounds(tier)
+    if tier == "thorough":
+        # five configurations instead of one: the third bundle is given up for them (K=3 with all
+        # configurations ran past the 3000 s cap of an obligation)
+        bd = dict(bd, K=2)
     ops = ops or [o for o in OPS if o != "bind2"]
     op = ops[e.choose(len(ops), "op")]
     cmd = make_cmd(e, op)
@@ -577,5 +581,11 @@ def prod_resend(e, tier="quick", ops=None):
     A["C14.subscriptions"] = And((subscribed_labels(xb.w) - {"c2"}) == subs_before,
                                  all((c._mailbox, bool(c._listening)) == state_before[c.label]
                                      for c in xb.w.conns if c is not c2))
+    # why a command is re-sent: the first connection is dying.  When the server notices, the new
+    # connection's standing (handle <=> registered subscriber) must be intact.
+    d_ex = xb.w.disconnect(xb.c)
+    im = inv_mem(xb.w, xb.w.snapshot())
+    A["C14.old_connection_drop"] = And(d_ex is None, *[v for v in im.values()])
+    xb.w.obs.append(("mem", {k: (v if isinstance(v, bool) else SBool(v)) for k, v in im.items()}))
     return PathResult(A, world=[xa.w, xb.w], kf=[("KF-D6", kf)],
                       info=dict(op=op, shape="%s/%s" % (xa.a_shape, xa.o_shape)))
